@@ -116,7 +116,7 @@ def rule_clamp(chk, cls):
                 about = [(f_, tr) for f_, tr in facts if f_[0] in ('abs(%s-self.t)' % T_, 'abs(self.t-%s)' % T_) and f_[2] == 'self._epsilon']
                 near_T = any((f_[1] in (ast.Lt, ast.LtE) and tr) or (f_[1] in (ast.Gt, ast.GtE) and not tr) for f_, tr in about)
                 far_T = any((f_[1] in (ast.Gt, ast.GtE) and tr) or (f_[1] in (ast.Lt, ast.LtE) and not tr) for f_, tr in about)
-                if near_T and not far_T:          # (both at once: a path that cannot be taken)
+                if about and not far_T:          # (near and far at once: a path that cannot be taken; a test on T that establishes neither - `==` - lands only by accident)
                     lands_now = lands_now or (T_, e.node)
         loops_ = [l for l in ast.walk(dn) if isinstance(l, (ast.For, ast.While)) and any(isinstance(a_, ast.Assign) and U(a_.targets[0]) == 'self.dt' for a_ in ast.walk(l))]
         chk.decide(second or bool(loops_), 'clamp', 'a-time-already-reached-is-skipped-for-the-next', node=node_c, file=SOL, func='_dump_output_if_needed',
